@@ -84,6 +84,10 @@ def handleProtocolError (c : Conn) (msg : String) : RErr × Conn :=
   let (_, w) := writeControl c.w 8 data writeWaitDeadline
   (.protocol msg, { c with w })
 
+/-- best-effort close frame with status 1009 (message too big) -/
+def sendTooBig (c : Conn) : Conn :=
+  { c with w := (writeControl c.w 8 (closePayload Gen.CloseMessageTooBig.toNat []) writeWaitDeadline).2 }
+
 structure Hdr where
   opcode : Nat
   fin : Bool
@@ -166,7 +170,8 @@ def advanceFrame (c : Conn) : Except RErr Nat × Conn :=
         | some e => (some e, c)
         | none =>
           let v := wrap64 (beVal p)
-          if v < 0 then (some .readLimit, c) else (none, { c with r := { c.r with remaining := v } })
+          -- setReadRemaining refuses a negative length; best-effort 1009 close
+          if v < 0 then (some .readLimit, sendTooBig c) else (none, { c with r := { c.r with remaining := v } })
       else (none, c)
     match s3 with
     | (some e, c) => (.error e, c)
@@ -186,12 +191,11 @@ def advanceFrame (c : Conn) : Except RErr Nat × Conn :=
     | (none, c) =>
     -- 5. data frames: read limit
     if h.opcode == 0 || h.opcode == 1 || h.opcode == 2 then
-      let len := wrap64 (c.r.length + c.r.remaining)
+      -- a text / binary frame starts a new message: restart the running sum
+      let base : Int := if h.opcode == 0 then c.r.length else 0
+      let len := wrap64 (base + c.r.remaining)
       let c := { c with r := { c.r with length := len } }
-      if len < 0 then (.error .readLimit, c)
-      else if c.r.limit > 0 && len > c.r.limit then
-        let (_, w) := writeControl c.w 8 (closePayload Gen.CloseMessageTooBig.toNat []) writeWaitDeadline
-        (.error .readLimit, { c with w })
+      if len < 0 || (c.r.limit > 0 && len > c.r.limit) then (.error .readLimit, sendTooBig c)
       else (.ok h.opcode, c)
     else
     -- 6. control frame payload
@@ -289,7 +293,7 @@ def mrReadLoop : Nat → Conn → Nat → Nat → (Bytes × Option RErr) × Conn
         let (bs, e, b) := c.r.buf.read k'
         let out := if c.r.isServer then maskFrom c.r.maskKey c.r.maskPos bs else bs
         let rem := c.r.remaining - bs.length
-        let e' := if rem > 0 && e = some .eof then some .unexpectedEOF else e
+        let e' := if (rem > 0 || !c.r.final) && e = some .eof then some .unexpectedEOF else e
         let r := { c.r with buf := b, readErr := e', remaining := rem,
                             maskPos := if c.r.isServer then (c.r.maskPos + bs.length) % 4 else c.r.maskPos }
         ((out, e'), { c with r })
